@@ -545,6 +545,583 @@ theorem handleTag_sim {E : γ → γ → Prop} {inpS inpW : Bytes} {δ : Nat} (F
       rw [hb]
       cases ds3.emissionEnabled <;> cases ctl.shouldEmit ds3.ctl <;> simp
 
+/-! ### non-tag lexemes -/
+
+/-- everything a text chunk does to the dispatcher -/
+theorem textTok_desc {E : γ → γ → Prop} (hcl : TextBlindR ctl E) (d : Disp γ) (hd : E d.ctl d.ctl) (b : Bytes) (tt : TextType) (l : Bool) (s : Range) :
+    (Disp.tokenProduced ctl d (.text b tt l s)).2 = .ok () ∧
+    (Disp.tokenProduced ctl d (.text b tt l s)).1.ctl = (ctl.token d.ctl (.text b tt l s)).1 ∧
+    DSame { d with ctl := (ctl.token d.ctl (.text b tt l s)).1 } (Disp.tokenProduced ctl d (.text b tt l s)).1 ∧
+    (Disp.tokenProduced ctl d (.text b tt l s)).1.rcs = d.rcs ∧
+    sinkBytes (Disp.tokenProduced ctl d (.text b tt l s)).1.sink = sinkBytes d.sink ++
+      (if d.emissionEnabled = true then b else []) := by
+  obtain ⟨a1, a2, a3, a4, a5, a6, a7, a8, a9, a10, a11, a12, a13⟩ := tokenProduced_desc (ctl := ctl) d (.text b tt l s)
+  obtain ⟨c1, c2, c3⟩ := hcl.text_ok d.ctl b tt l s hd
+  rw [c1] at a13; rw [c2] at a11; rw [c3] at a12
+  exact ⟨a13, a1, ⟨a1, a3, a4, a5, a6, a7, a8, a9, a10, a11⟩, a2, a12⟩
+
+/-- everything `produce_text` (one text lexeme under the TEXT flag) does -/
+theorem produceText_desc {E : γ → γ → Prop} (hcl : TextBlindR ctl E) (d : Disp γ) (hd : E d.ctl d.ctl) (input : Bytes) (lx : NonTagLexeme) (tt : TextType) :
+    EPanic (d.produceText ctl input lx tt).2 ∨
+    ∃ rawb, checkedSlice input lx.raw = some rawb ∧ d.rcs ≤ lx.raw.start ∧
+      (d.produceText ctl input lx tt).2 = .ok () ∧
+      (d.produceText ctl input lx tt).1.ctl = (ctl.token d.ctl (.text rawb tt false (srcOf lx.prevConsumed lx.raw))).1 ∧
+      (d.produceText ctl input lx tt).1.flags = d.flags ∧
+      (d.produceText ctl input lx tt).1.emissionEnabled = d.emissionEnabled ∧
+      (d.produceText ctl input lx tt).1.lastTextType = tt ∧
+      (d.produceText ctl input lx tt).1.gotFlagsFromHint = d.gotFlagsFromHint ∧
+      (d.produceText ctl input lx tt).1.pendingAux = d.pendingAux ∧
+      (d.produceText ctl input lx tt).1.textPending = true ∧
+      (d.produceText ctl input lx tt).1.textPendingStart = lx.prevConsumed + lx.raw.end ∧
+      (d.produceText ctl input lx tt).1.encoding = d.encoding ∧
+      (d.produceText ctl input lx tt).1.nextEncoding = d.nextEncoding ∧
+      (d.produceText ctl input lx tt).1.rcs = lx.raw.end ∧
+      sinkBytes (d.produceText ctl input lx tt).1.sink = sinkBytes d.sink ++
+        (if d.emissionEnabled = true then LolHtml.slice input d.rcs lx.raw.start ++ rawb else []) := by
+  unfold Disp.produceText
+  cases hr : checkedSlice input lx.raw with
+  | none => exact Or.inl trivial
+  | some rawb =>
+    simp only
+    rcases emitChunkBefore_desc d input lx.raw with ⟨m, he⟩ | ⟨d1, he, hs, h1, h2, h3, h4⟩
+    · left; rw [he]; simp [DRes.ofExcept, DRes.bind, EPanic]
+    · right
+      rw [he]
+      simp only [DRes.ofExcept, DRes.bind]
+      obtain ⟨t1, t2, t3, t4, t5⟩ := textTok_desc hcl { d1 with lastTextType := tt } (by show E d1.ctl d1.ctl; rw [hs.ctl]; exact hd) rawb tt false (srcOf lx.prevConsumed lx.raw)
+      rw [t1]
+      simp only
+      refine ⟨rawb, rfl, h2, trivial, by rw [t2]; simp only; rw [hs.ctl], by rw [t3.flags]; exact hs.flags,
+        by rw [t3.em]; exact hs.em, by rw [t3.ltt], by rw [t3.gffh]; exact hs.gffh, by rw [t3.paux]; exact hs.paux, trivial, trivial,
+        by rw [t3.enc]; exact hs.enc, by rw [t3.nenc]; exact hs.nenc, trivial, ?_⟩
+      rw [t5]
+      simp only
+      rw [h4, hs.em]
+      cases d.emissionEnabled <;> simp
+
+/-- `produce_text` cannot fail when its slices are in range -/
+theorem produceText_noPanic {E : γ → γ → Prop} (hcl : TextBlindR ctl E) (d : Disp γ) (hd : E d.ctl d.ctl) (input : Bytes) (lx : NonTagLexeme) (tt : TextType)
+    (h1 : lx.raw.start ≤ lx.raw.end) (h2 : lx.raw.end ≤ input.length) (h3 : d.rcs ≤ lx.raw.start) :
+    ¬ EPanic (d.produceText ctl input lx tt).2 := by
+  intro hp
+  unfold Disp.produceText at hp
+  have hr : checkedSlice input lx.raw = some (LolHtml.slice input lx.raw.start lx.raw.end) := by
+    unfold checkedSlice; rw [if_pos ⟨h1, h2⟩]
+  rw [hr] at hp
+  simp only at hp
+  rcases emitChunkBefore_desc d input lx.raw with ⟨m, he⟩ | ⟨d1, he, hs, _⟩
+  · unfold Disp.emitChunkBefore at he
+    have : checkedSlice input ⟨d.rcs, lx.raw.start⟩ = some (LolHtml.slice input d.rcs lx.raw.start) := by
+      unfold checkedSlice; rw [if_pos ⟨h3, by simp only; omega⟩]
+    rw [this] at he
+    cases he
+  · rw [he] at hp
+    simp only [DRes.ofExcept, DRes.bind] at hp
+    obtain ⟨t1, _⟩ := textTok_desc hcl { d1 with lastTextType := tt } (by show E d1.ctl d1.ctl; rw [hs.ctl]; exact hd)
+      (LolHtml.slice input lx.raw.start lx.raw.end) tt false (srcOf lx.prevConsumed lx.raw)
+    rw [t1] at hp
+    exact hp
+
+/-- a text lexeme under related dispatchers without debt -/
+theorem produceText_sim {E : γ → γ → Prop} {inpS inpW : Bytes} {δ : Nat} (F : Frame inpS inpW δ) (hcl : TextBlindR ctl E)
+    {ds dw : Disp γ} (h : DK0 E inpS inpW δ ds dw) (pc : Nat) (raw : Range) (o o' : Option NonTagOutline) (tt : TextType) :
+    OpRel (DK0 E inpS inpW δ) (ds.produceText ctl inpS ⟨pc + δ, raw, o⟩ tt) (dw.produceText ctl inpW ⟨pc, shR δ raw, o'⟩ tt) := by
+  rcases produceText_desc hcl ds (hcl.dom _ _ h.ctl).1 inpS ⟨pc + δ, raw, o⟩ tt with hp | ⟨rawb, a0, a1, a2, a3, a4, a5, a6, a7, a8, a9, a10, a11, a12, a13, a14⟩
+  · exact Or.inl hp
+  · simp only at a0 a1
+    obtain ⟨r1, r2, r3⟩ := checkedSlice_some a0
+    have hl := F.len
+    have hle := h.bytes.rcs_le
+    rcases produceText_desc hcl dw (hcl.dom _ _ h.ctl).2 inpW ⟨pc, shR δ raw, o'⟩ tt with hp | ⟨rawb', b0, b1, b2, b3, b4, b5, b6, b7, b8, b9, b10, b11, b12, b13, b14⟩
+    · exact (produceText_noPanic hcl dw (hcl.dom _ _ h.ctl).2 inpW ⟨pc, shR δ raw, o'⟩ tt (by simp only [shR]; omega) (by simp only [shR]; omega)
+        (by simp only [shR]; omega) hp).elim
+    · simp only at b0 b1
+      rw [F.checkedSlice a0] at b0
+      simp only [Option.some.injEq] at b0
+      subst b0
+      right
+      refine ⟨by rw [a2, b2], fun _ => ?_⟩
+      refine ⟨?_, ⟨by rw [a4, b4]; exact h.eq.flags, by rw [a5, b5]; exact h.eq.em, by rw [a7, b7]; exact h.eq.gffh,
+        by rw [a8, b8]; exact h.eq.paux, by rw [a11, b11]; exact h.eq.enc, by rw [a12, b12]; exact h.eq.nenc⟩,
+        ⟨by rw [a6, b6], by rw [a9, b9], by rw [a10, b10]; simp only [shR]; omega⟩,
+        ⟨by rw [a13, b13]; simp [shR], ?_⟩⟩
+      · rw [a3, b3]
+        simp only
+        rw [srcOf_sh]
+        exact hcl.text_cong _ _ _ _ _ _ h.ctl
+      · have hbb := h.bytes.bytes
+        cases hem : ds.emissionEnabled with
+        | false =>
+          rw [a14, b14, a5, h.eq.em, hem]
+          rw [hem] at hbb
+          simpa using hbb
+        | true =>
+        rw [a14, b14, a13, b13, a5, h.eq.em, hbb]
+        simp only [hem, if_true, shR]
+        have e1 : LolHtml.slice inpW (raw.end + δ) (raw.end + δ) = [] := by unfold LolHtml.slice; simp
+        have e2 : LolHtml.slice inpS ds.rcs raw.start = LolHtml.slice inpW (ds.rcs + δ) (raw.start + δ) :=
+          (F.slice (by omega)).symm
+        rw [e1, e2, List.append_nil, List.append_assoc, ← List.append_assoc (LolHtml.slice inpW dw.rcs (ds.rcs + δ)),
+          slice_append_slice inpW hle (by omega)]
+
+def TokRel (ctl : Controller γ) (inpS : Bytes) (raw : Range) : Option Token → Option Token → Prop
+  | none, none => True
+  | some tok, some tok' => (∀ g, ctl.token g tok = ctl.token g tok') ∧ tokIsText tok' = false ∧
+      raw.start ≤ raw.end ∧ raw.end ≤ inpS.length
+  | _, _ => False
+
+theorem nonTagToToken_sim {E : γ → γ → Prop} {inpS inpW : Bytes} {δ : Nat} (F : Frame inpS inpW δ) (hcl : TextBlindR ctl E)
+    (f : Flags) (pc : Nat) (raw : Range) (o : Option NonTagOutline) (r : Option Token)
+    (h : nonTagToToken f inpS ⟨pc + δ, raw, o⟩ = some r) (hdt : DtIn inpS inpW δ o) :
+    ∃ r', nonTagToToken f inpW ⟨pc, shR δ raw, o.map (shNonTag δ)⟩ = some r' ∧ TokRel ctl inpS raw r r' := by
+  unfold nonTagToToken at h ⊢
+  cases o with
+  | none => simp only [Option.some.injEq] at h; subst h; exact ⟨none, rfl, trivial⟩
+  | some o =>
+    cases o with
+    | text tt => simp only [Option.some.injEq] at h; subst h; exact ⟨none, rfl, trivial⟩
+    | eof => simp only [Option.some.injEq] at h; subst h; exact ⟨none, rfl, trivial⟩
+    | comment text =>
+      simp only [Option.map_some, shNonTag] at h ⊢
+      by_cases hf : f.comments = true
+      · rw [if_pos hf] at h ⊢
+        cases ht : checkedSlice inpS text with
+        | none => rw [ht] at h; simp at h
+        | some t =>
+          cases hr : checkedSlice inpS raw with
+          | none => rw [ht, hr] at h; simp at h
+          | some rawb =>
+            rw [ht, hr] at h
+            simp only [Option.some.injEq] at h
+            subst h
+            rw [F.checkedSlice ht, F.checkedSlice hr]
+            obtain ⟨r1, r2, _⟩ := checkedSlice_some hr
+            exact ⟨_, rfl, fun g => by rw [srcOf_sh], rfl, r1, r2⟩
+      · rw [if_neg hf] at h ⊢
+        simp only [Option.some.injEq] at h; subst h; exact ⟨none, rfl, trivial⟩
+    | doctype dt =>
+      simp only [Option.map_some, shNonTag] at h ⊢
+      by_cases hf : f.doctypes = true
+      · rw [if_pos hf] at h ⊢
+        cases hr : checkedSlice inpS raw with
+        | none => rw [hr] at h; simp at h
+        | some rawb =>
+          rw [hr] at h
+          simp only [Option.some.injEq] at h
+          subst h
+          rw [F.checkedSlice hr]
+          obtain ⟨r1, r2, _⟩ := checkedSlice_some hr
+          refine ⟨_, rfl, fun g => ?_, rfl, r1, r2⟩
+          have hdt' : inpW.length = inpS.length + δ ∨ leNonTag inpS.length (.doctype dt) := hdt
+          have h1 := optSlice_sh_eq F dt.name (hdt'.imp id (fun h => h.1))
+          have h2 := optSlice_sh_eq F dt.publicId (hdt'.imp id (fun h => h.2.1))
+          have h3 := optSlice_sh_eq F dt.systemId (hdt'.imp id (fun h => h.2.2))
+          simp only [shDoctype]
+          rw [srcOf_sh, h1, h2, h3]
+      · rw [if_neg hf] at h ⊢
+        simp only [Option.some.injEq] at h; subst h; exact ⟨none, rfl, trivial⟩
+
+/-- **`LexemeSink::handle_non_tag_content`**, no text debt -/
+theorem handleNonTag_sim {E : γ → γ → Prop} {inpS inpW : Bytes} {δ : Nat} (F : Frame inpS inpW δ) (hcl : TextBlindR ctl E)
+    {ds dw : Disp γ} (h : DK0 E inpS inpW δ ds dw) (pc : Nat) (raw : Range) (o : Option NonTagOutline)
+    (hdt : DtIn inpS inpW δ o) :
+    OpRel (DK0 E inpS inpW δ) (Disp.handleNonTag ctl inpS ⟨pc + δ, raw, o⟩ ds)
+      (Disp.handleNonTag ctl inpW ⟨pc, shR δ raw, o.map (shNonTag δ)⟩ dw) := by
+  unfold Disp.handleNonTag
+  have hnt : ∀ {ds dw : Disp γ}, DK0 E inpS inpW δ ds dw → (∀ tt, o ≠ some (.text tt)) →
+      OpRel (DK0 E inpS inpW δ) (ds.produceNonTag ctl inpS ⟨pc + δ, raw, o⟩)
+        (dw.produceNonTag ctl inpW ⟨pc, shR δ raw, o.map (shNonTag δ)⟩) := by
+    intro ds dw h hno
+    have key : OpRel (DK0 E inpS inpW δ)
+        (match nonTagToToken ds.flags inpS ⟨pc + δ, raw, o⟩ with
+          | none => (ds, .error (.panic "Bytes::slice out of range in to_token"))
+          | some none => (ds, .ok ())
+          | some (some tok) => ds.emitToken ctl inpS raw tok)
+        (match nonTagToToken dw.flags inpW ⟨pc, shR δ raw, o.map (shNonTag δ)⟩ with
+          | none => (dw, .error (.panic "Bytes::slice out of range in to_token"))
+          | some none => (dw, .ok ())
+          | some (some tok) => dw.emitToken ctl inpW (shR δ raw) tok) := by
+      rw [h.eq.flags]
+      cases hr : nonTagToToken ds.flags inpS ⟨pc + δ, raw, o⟩ with
+      | none => exact Or.inl trivial
+      | some r =>
+        obtain ⟨r', hw, hrel⟩ := nonTagToToken_sim F hcl ds.flags pc raw o r hr hdt
+        rw [hw]
+        cases r with
+        | none =>
+          cases r' with
+          | none => exact OpRel.ok () h
+          | some _ => exact hrel.elim
+        | some tok =>
+          cases r' with
+          | none => exact hrel.elim
+          | some tok' =>
+            obtain ⟨hn, hnt, hr1, hr2⟩ := hrel
+            exact (emitToken_sim F hcl h raw tok tok' hn hnt ⟨hr1, hr2⟩).mono (fun _ _ hab => hab.1)
+    unfold Disp.produceNonTag
+    cases o with
+    | none => exact key
+    | some o =>
+      cases o with
+      | text tt => exact (hno tt rfl).elim
+      | comment t => exact key
+      | doctype dt => exact key
+      | eof => exact key
+  obtain ⟨f1, f2, f3, _, _, _, _⟩ := flushPendingText_sim hcl h
+  have hflush : OpRel (DK0 E inpS inpW δ) (ds.flushPendingText ctl) (dw.flushPendingText ctl) :=
+    Or.inr ⟨by rw [f1, f2], fun _ => f3⟩
+  cases o with
+  | none =>
+    simp only [NonTagLexeme.isText, Option.map_none, Bool.false_eq_true, if_false]
+    exact bind_rel hflush (fun ds1 dw1 _ h1 => hnt h1 (fun _ hh => by cases hh))
+  | some o =>
+    cases o with
+    | text tt =>
+      simp only [NonTagLexeme.isText, Option.map_some, shNonTag, if_true]
+      refine bind_rel (R := DK0 E inpS inpW δ) (OpRel.ok () h) (fun ds1 dw1 _ h1 => ?_)
+      unfold Disp.produceNonTag
+      simp only
+      rw [h1.eq.flags]
+      split
+      · exact produceText_sim F hcl h1 pc raw _ _ tt
+      · exact OpRel.ok () h1
+    | comment t =>
+      simp only [NonTagLexeme.isText, Option.map_some, shNonTag, Bool.false_eq_true, if_false]
+      exact bind_rel hflush (fun ds1 dw1 _ h1 => hnt h1 (fun _ hh => by cases hh))
+    | doctype dt =>
+      simp only [NonTagLexeme.isText, Option.map_some, shNonTag, Bool.false_eq_true, if_false]
+      exact bind_rel hflush (fun ds1 dw1 _ h1 => hnt h1 (fun _ hh => by cases hh))
+    | eof =>
+      simp only [NonTagLexeme.isText, Option.map_some, shNonTag, Bool.false_eq_true, if_false]
+      exact bind_rel hflush (fun ds1 dw1 _ h1 => hnt h1 (fun _ hh => by cases hh))
+
+/-! ### tag hints -/
+
+theorem applyHintFlags_sim {E : γ → γ → Prop} {inpS inpW : Bytes} {δ : Nat} {ds dw : Disp γ}
+    (h : DK0 E inpS inpW δ ds dw) (f : Flags) :
+    OpRel (DK0 E inpS inpW δ) (ds.applyHintFlags f) (dw.applyHintFlags f) := by
+  unfold Disp.applyHintFlags Disp.nextDirective
+  exact OpRel.ok _ ((h.setFlags f).setGffh _)
+
+theorem startTagHint_sim {E : γ → γ → Prop} {inpS inpW : Bytes} {δ : Nat} (hcl : TextBlindR ctl E) {ds dw : Disp γ}
+    (h : DK0 E inpS inpW δ ds dw) (n : LocalName) (ns : Ns) :
+    OpRel (DK0 E inpS inpW δ) (Disp.startTagHint ctl n ns ds) (Disp.startTagHint ctl n ns dw) := by
+  unfold Disp.startTagHint
+  obtain ⟨h1, h2⟩ := hcl.start ds.ctl dw.ctl n ns h.ctl
+  simp only
+  rw [← h1]
+  cases (ctl.startTag ds.ctl n ns).2 with
+  | flags f => exact applyHintFlags_sim (h.setCtl h2) f
+  | infoRequest => exact OpRel.ok _ (((h.setCtl h2).setGffh false).setPaux true)
+  | err e => exact Or.inr ⟨rfl, fun ⟨a, ha⟩ => by cases ha⟩
+
+theorem endTagHint_sim {E : γ → γ → Prop} {inpS inpW : Bytes} {δ : Nat} (hcl : TextBlindR ctl E) {ds dw : Disp γ}
+    (h : DK0 E inpS inpW δ ds dw) (n : LocalName) :
+    OpRel (DK0 E inpS inpW δ) (Disp.endTagHint ctl n ds) (Disp.endTagHint ctl n dw) := by
+  unfold Disp.endTagHint
+  obtain ⟨f1, f2, f3, _, _, _, _⟩ := flushPendingText_sim hcl h
+  have hflush : OpRel (DK0 E inpS inpW δ) (ds.flushPendingText ctl) (dw.flushPendingText ctl) :=
+    Or.inr ⟨by rw [f1, f2], fun _ => f3⟩
+  refine bind_rel hflush (fun ds1 dw1 _ h1 => ?_)
+  obtain ⟨e1, e2⟩ := hcl.endT ds1.ctl dw1.ctl n h1.ctl
+  have s2 : Disp.shouldStopRemoving ctl { dw1 with ctl := (ctl.endTag dw1.ctl n).1 } =
+      Disp.shouldStopRemoving ctl { ds1 with ctl := (ctl.endTag ds1.ctl n).1 } := by
+    unfold Disp.shouldStopRemoving
+    simp only
+    rw [h1.eq.em, hcl.emit _ _ e2]
+  simp only [s2]
+  rw [← e1]
+  exact applyHintFlags_sim (h1.setCtl e2) _
+
+/-! ### repaying the text debt -/
+
+/-- the whole run's text lexeme `[a, x)` against the split run's remainder `[a + d, x)`, the first `d` bytes
+having been delivered to the split run's dispatcher before -/
+theorem textRepay_sim {E : γ → γ → Prop} {inpS inpW : Bytes} {δ : Nat} (F : Frame inpS inpW δ) (hcl : TextBlindR ctl E)
+    {ds dw : Disp γ} (pc a x d : Nat) (tt : TextType) (hk : DKt ctl E inpS inpW δ d ds dw)
+    (hloc : ds.rcs = a + d - δ ∧ ds.textPendingStart = pc + δ + (a + d - δ) ∧ ds.lastTextType = tt ∧ ds.textPending = true)
+    (hd : 0 < d) (hδ : δ ≤ a + d) (hx : a + d ≤ x) (o o' : Option NonTagOutline) :
+    OpRel (DK0 E inpS inpW δ)
+      (if a + d < x then ds.produceText ctl inpS ⟨pc + δ, ⟨a + d - δ, x - δ⟩, o⟩ tt else (ds, .ok ()))
+      (dw.produceText ctl inpW ⟨pc, ⟨a, x⟩, o'⟩ tt) := by
+  obtain ⟨l1, l2, l3, l4⟩ := hloc
+  have hdS : E ds.ctl ds.ctl := (hcl.dom _ _ hk.ctl).1
+  have hdW : E dw.ctl dw.ctl := hcl.dom_tok _ _ (hcl.dom _ _ hk.ctl).2
+  have hl := F.len
+  have hrd := hk.rcs_d
+  have hri := hk.rcs_in
+  have hbytes0 := hk.bytes.bytes
+  have hctl := hk.ctl
+  have e1 : ds.rcs + δ - d = a := by omega
+  have e2 : ds.rcs + δ = a + d := by omega
+  have e3 : ds.textPendingStart - d = pc + a := by omega
+  have e4 : ds.textPendingStart = pc + a + d := by omega
+  rw [e1, e2, l3, e3, e4] at hctl
+  rw [e2] at hbytes0
+  by_cases hlt : a + d < x
+  · rw [if_pos hlt]
+    rcases produceText_desc hcl ds hdS inpS ⟨pc + δ, ⟨a + d - δ, x - δ⟩, o⟩ tt with hp | ⟨rawb, a0, a1, a2, a3, a4, a5, a6, a7, a8, a9, a10, a11, a12, a13, a14⟩
+    · exact Or.inl hp
+    simp only at a0 a1 a3 a10 a13 a14
+    obtain ⟨r1, r2, r3⟩ := checkedSlice_some a0
+    simp only at r1 r2 r3
+    rcases produceText_desc hcl dw hdW inpW ⟨pc, ⟨a, x⟩, o'⟩ tt with hp | ⟨rawb', b0, b1, b2, b3, b4, b5, b6, b7, b8, b9, b10, b11, b12, b13, b14⟩
+    · exact (produceText_noPanic hcl dw hdW inpW ⟨pc, ⟨a, x⟩, o'⟩ tt (by simp only; omega) (by simp only; omega)
+        (by simp only; omega) hp).elim
+    simp only at b0 b1 b3 b10 b13 b14
+    obtain ⟨q1, q2, q3⟩ := checkedSlice_some b0
+    simp only at q1 q2 q3
+    have hb2 : rawb = LolHtml.slice inpW (a + d) x := by
+      rw [r3, ← F.slice r2]
+      congr 1 <;> omega
+    have hcat : rawb' = LolHtml.slice inpW a (a + d) ++ rawb := by
+      rw [q3, hb2, slice_append_slice inpW (by omega) hx]
+    have hlen1 : (LolHtml.slice inpW a (a + d)).length = d := by rw [slice_length inpW (by omega)]; omega
+    have hlen2 : rawb.length = x - (a + d) := by rw [hb2, slice_length inpW q2]
+    right
+    refine ⟨by rw [a2, b2], fun _ => ?_⟩
+    refine ⟨?_, ⟨by rw [a4, b4]; exact hk.eq.flags, by rw [a5, b5]; exact hk.eq.em, by rw [a7, b7]; exact hk.eq.gffh,
+      by rw [a8, b8]; exact hk.eq.paux, by rw [a11, b11]; exact hk.eq.enc, by rw [a12, b12]; exact hk.eq.nenc⟩,
+      ⟨by rw [a6, b6], by rw [a9, b9], by rw [a10, b10]; omega⟩,
+      ⟨by rw [a13, b13]; omega, ?_⟩⟩
+    · rw [a3, b3]
+      have h1 := hcl.text_cong _ _ rawb tt false (srcOf (pc + δ) ⟨a + d - δ, x - δ⟩) hctl
+      have h2 := hcl.text_split dw.ctl (LolHtml.slice inpW a (a + d)) rawb tt false (pc + a) hdW
+      rw [hlen1, hlen2, ← hcat] at h2
+      have es : srcOf (pc + δ) ⟨a + d - δ, x - δ⟩ = ⟨pc + a + d, pc + a + d + (x - (a + d))⟩ := by
+        simp only [srcOf, Range.mk.injEq]; constructor <;> first | trivial | omega
+      have ew : srcOf pc ⟨a, x⟩ = ⟨pc + a, pc + a + d + (x - (a + d))⟩ := by
+        simp only [srcOf, Range.mk.injEq]; constructor <;> first | trivial | omega
+      rw [es] at h1 ⊢
+      rw [ew]
+      exact hcl.trans _ _ _ h1 h2
+    · cases hem : ds.emissionEnabled with
+      | false =>
+        rw [a14, b14, a5, hk.eq.em, hem]
+        rw [hem] at hbytes0
+        simpa using hbytes0
+      | true =>
+      have hbytes := hbytes0
+      rw [hem] at hbytes
+      simp only [if_true] at hbytes
+      rw [a14, b14, a13, b13, a5, hk.eq.em]
+      simp only [hem, if_true]
+      rw [hbytes, l1, slice_self, hcat, show x - δ + δ = x from by omega, slice_self]
+      simp only [List.append_nil, List.nil_append, List.append_assoc]
+      rw [← List.append_assoc (LolHtml.slice inpW dw.rcs a), slice_append_slice inpW (by omega) (by omega)]
+  · rw [if_neg hlt]
+    have hxe : x = a + d := by omega
+    subst hxe
+    rcases produceText_desc hcl dw hdW inpW ⟨pc, ⟨a, a + d⟩, o'⟩ tt with hp | ⟨rawb', b0, b1, b2, b3, b4, b5, b6, b7, b8, b9, b10, b11, b12, b13, b14⟩
+    · exact (produceText_noPanic hcl dw hdW inpW ⟨pc, ⟨a, a + d⟩, o'⟩ tt (by simp only; omega) (by simp only; omega)
+        (by simp only; omega) hp).elim
+    simp only at b0 b1 b3 b10 b13 b14
+    obtain ⟨q1, q2, q3⟩ := checkedSlice_some b0
+    simp only at q1 q2 q3
+    right
+    refine ⟨by rw [b2], fun _ => ?_⟩
+    refine ⟨?_, ⟨by rw [b4]; exact hk.eq.flags, by rw [b5]; exact hk.eq.em, by rw [b7]; exact hk.eq.gffh,
+      by rw [b8]; exact hk.eq.paux, by rw [b11]; exact hk.eq.enc, by rw [b12]; exact hk.eq.nenc⟩,
+      ⟨by rw [b6, l3], by rw [b9, l4], by rw [b10]; show pc + (a + d) = ds.textPendingStart; omega⟩,
+      ⟨by rw [b13]; show a + d ≤ ds.rcs + δ; omega, ?_⟩⟩
+    · rw [b3, q3]
+      have ew : srcOf pc ⟨a, a + d⟩ = ⟨pc + a, pc + a + d⟩ := by
+        simp only [srcOf, Range.mk.injEq]; constructor <;> first | trivial | omega
+      rw [ew]
+      exact hctl
+    · cases hem : ds.emissionEnabled with
+      | false =>
+        rw [b14, hk.eq.em, hem]
+        rw [hem] at hbytes0
+        simpa using hbytes0
+      | true =>
+      have hbytes := hbytes0
+      rw [hem] at hbytes
+      simp only [if_true] at hbytes
+      rw [b14, b13, hk.eq.em]
+      simp only [hem, if_true]
+      rw [hbytes, e2, slice_self, q3, List.append_nil, slice_append_slice inpW (by omega) (by omega)]
+
+/-! ### `emission_enabled` against `should_emit_content()` -/
+
+/-- `emission_enabled` untouched, `should_emit_content()` unchanged -/
+def FrP (ctl : Controller γ) (d d' : Disp γ) : Prop :=
+  d'.emissionEnabled = d.emissionEnabled ∧ ctl.shouldEmit d'.ctl = ctl.shouldEmit d.ctl
+
+theorem FrP.refl (d : Disp γ) : FrP ctl d d := ⟨rfl, rfl⟩
+
+theorem FrP.trans {a b c : Disp γ} (h1 : FrP ctl a b) (h2 : FrP ctl b c) : FrP ctl a c :=
+  ⟨h2.1.trans h1.1, h2.2.trans h1.2⟩
+
+theorem FrP.dj {d d' : Disp γ} (h : FrP ctl d d') (hj : DJ ctl d) : DJ ctl d' := by
+  intro he
+  rw [h.2]
+  exact hj (by rw [← h.1]; exact he)
+
+theorem bind_frame {α β : Type} {d : Disp γ} {r : DRes γ α} {f : Disp γ → α → DRes γ β}
+    (hr : FrP ctl d r.1) (hf : ∀ d1 a, FrP ctl d d1 → FrP ctl d (f d1 a).1) : FrP ctl d (r.bind f).1 := by
+  unfold DRes.bind
+  split
+  · exact hr
+  · exact hf _ _ hr
+
+theorem tokenProduced_frame {E : γ → γ → Prop} (hcl : TextBlindR ctl E) (d : Disp γ) (t : Token) (ht : tokIsTag t = false) :
+    FrP ctl d (Disp.tokenProduced ctl d t).1 := by
+  obtain ⟨a1, _, _, a4, _⟩ := tokenProduced_desc (ctl := ctl) d t
+  exact ⟨a4, by rw [a1]; exact hcl.emit_tok _ _ ht⟩
+
+theorem flushPendingText_frame {E : γ → γ → Prop} (hcl : TextBlindR ctl E) (d : Disp γ) :
+    FrP ctl d (d.flushPendingText ctl).1 := by
+  unfold Disp.flushPendingText
+  split
+  · exact tokenProduced_frame hcl { d with textPending := false } _ rfl
+  · exact FrP.refl d
+
+theorem ofExcept_emitChunkBefore_frame (d : Disp γ) (input : Bytes) (raw : Range) :
+    FrP ctl d (DRes.ofExcept d (d.emitChunkBefore input raw)).1 := by
+  rcases emitChunkBefore_desc d input raw with ⟨m, he⟩ | ⟨d1, he, hs, _⟩
+  · rw [he]; exact FrP.refl d
+  · rw [he]; exact ⟨hs.em, by show ctl.shouldEmit d1.ctl = _; rw [hs.ctl]⟩
+
+theorem emitToken_frame {E : γ → γ → Prop} (hcl : TextBlindR ctl E) (d : Disp γ) (input : Bytes) (raw : Range) (tok : Token)
+    (ht : tokIsTag tok = false) : FrP ctl d (d.emitToken ctl input raw tok).1 := by
+  unfold Disp.emitToken
+  refine bind_frame (ofExcept_emitChunkBefore_frame d input raw) (fun d1 _ h1 => ?_)
+  refine bind_frame (h1.trans (tokenProduced_frame hcl d1 tok ht)) (fun d2 _ h2 => ?_)
+  obtain ⟨a1, _, _, a4, _⟩ := flushEncodingChange_desc { d2 with rcs := raw.end }
+  exact ⟨a4.trans h2.1, by rw [a1]; exact h2.2⟩
+
+theorem nonTagToToken_notTag {f : Flags} {input : Bytes} {lx : NonTagLexeme} {tok : Token}
+    (h : nonTagToToken f input lx = some (some tok)) : tokIsTag tok = false := by
+  unfold nonTagToToken at h
+  simp only at h
+  split at h
+  · split at h
+    · split at h
+      · simp only [Option.some.injEq] at h; subst h; rfl
+      · cases h
+    · cases h
+  · split at h
+    · split at h
+      · simp only [Option.some.injEq] at h; subst h; rfl
+      · cases h
+    · cases h
+  · cases h
+
+theorem produceNonTag_frame {E : γ → γ → Prop} (hcl : TextBlindR ctl E) (d : Disp γ) (input : Bytes) (lx : NonTagLexeme) :
+    FrP ctl d (d.produceNonTag ctl input lx).1 := by
+  unfold Disp.produceNonTag
+  split
+  · rename_i tt _
+    split
+    · unfold Disp.produceText
+      split
+      · exact FrP.refl d
+      · rename_i rawb _
+        refine bind_frame (ofExcept_emitChunkBefore_frame d input lx.raw) (fun d1 _ h1 => ?_)
+        refine bind_frame (h1.trans ?_) (fun d2 _ h2 => ?_)
+        · have := tokenProduced_frame hcl { d1 with lastTextType := tt } (.text rawb tt false (srcOf lx.prevConsumed lx.raw)) rfl
+          exact this
+        · exact h2
+    · exact FrP.refl d
+  · split
+    · exact FrP.refl d
+    · exact FrP.refl d
+    · rename_i tok htok
+      exact emitToken_frame hcl d input lx.raw tok (nonTagToToken_notTag htok)
+
+theorem handleNonTag_frame {E : γ → γ → Prop} (hcl : TextBlindR ctl E) (d : Disp γ) (input : Bytes) (lx : NonTagLexeme) :
+    FrP ctl d (Disp.handleNonTag ctl input lx d).1 := by
+  unfold Disp.handleNonTag
+  refine bind_frame ?_ (fun d1 _ h1 => h1.trans (produceNonTag_frame hcl d1 input lx))
+  split
+  · exact FrP.refl d
+  · exact flushPendingText_frame hcl d
+
+theorem startTagHint_frame {E : γ → γ → Prop} (hcl : TextBlindR ctl E) (d : Disp γ) (n : LocalName) (ns : Ns) :
+    FrP ctl d (Disp.startTagHint ctl n ns d).1 := by
+  unfold Disp.startTagHint
+  simp only
+  split <;> exact ⟨rfl, hcl.emit_start _ _ _⟩
+
+theorem endTagHint_dj {E : γ → γ → Prop} (hcl : TextBlindR ctl E) (d : Disp γ) (n : LocalName) (hj : DJ ctl d) :
+    DJ ctl (Disp.endTagHint ctl n d).1 := by
+  unfold Disp.endTagHint DRes.bind
+  have hf := flushPendingText_frame hcl d
+  split
+  · exact hf.dj hj
+  · intro he
+    have h1 := (hf.dj hj) he
+    exact hcl.emit_end _ _ h1
+
+/-! ### the guarded dispatcher is a sink for the resumption proof -/
+
+theorem DK.dom {E : γ → γ → Prop} (hcl : TextBlindR ctl E) {inpS inpW : Bytes} {δ d : Nat} {ds dw : Disp γ}
+    (h : DK ctl E inpS inpW δ d ds dw) : E ds.ctl ds.ctl ∧ E dw.ctl dw.ctl := by
+  obtain ⟨_, h⟩ := h
+  split at h
+  · exact hcl.dom _ _ h.ctl
+  · cases hf : ds.flags.text with
+    | false => exact hcl.dom _ _ (h.1 hf).ctl
+    | true => exact ⟨(hcl.dom _ _ (h.2 hf).ctl).1, hcl.dom_tok _ _ (hcl.dom _ _ (h.2 hf).ctl).2⟩
+
+/-- **The guarded dispatcher instance of `OpsSim`**, for every controller in the class `TextBlindR`. -/
+theorem guardOps_sim {E : γ → γ → Prop} {inpS inpW : Bytes} {δ : Nat} (F : Frame inpS inpW δ) (hcl : TextBlindR ctl E) :
+    OpsSim (guardOps ctl) inpS inpW δ (DK ctl E inpS inpW δ) DLoc where
+  tag := fun pc raw o ks kw hk => by
+    obtain ⟨hj, h0⟩ := DK_zero.1 hk
+    exact (handleTag_sim F hcl h0 hj pc raw o).mono (fun _ _ h => DK_zero.2 h)
+  nonTag := fun pc raw o ks kw hk hdt => by
+    obtain ⟨hj, h0⟩ := DK_zero.1 hk
+    have := OpRel.and_left (P := DJ ctl) (handleNonTag_sim F hcl h0 pc raw o hdt)
+      ((handleNonTag_frame hcl ks inpS ⟨pc + δ, raw, o⟩).dj hj)
+    exact this.mono (fun _ _ h => DK_zero.2 ⟨h.2, h.1⟩)
+  startHint := fun n ns ks kw hk => by
+    obtain ⟨hj, h0⟩ := DK_zero.1 hk
+    have := OpRel.and_left (P := DJ ctl) (startTagHint_sim hcl h0 n ns) ((startTagHint_frame hcl ks n ns).dj hj)
+    exact this.mono (fun _ _ h => DK_zero.2 ⟨h.2, h.1⟩)
+  endHint := fun n ks kw hk => by
+    obtain ⟨hj, h0⟩ := DK_zero.1 hk
+    have := OpRel.and_left (P := DJ ctl) (endTagHint_sim hcl h0 n) (endTagHint_dj hcl ks n hj)
+    exact this.mono (fun _ _ h => DK_zero.2 ⟨h.2, h.1⟩)
+  textOk := by
+    intro pc raw tt d ks kw hk
+    show EPanic (Disp.handleNonTag ctl inpS ⟨pc, raw, some (.text tt)⟩ ks).2 ∨ _
+    rw [show (guardOps ctl).handleNonTag = Disp.handleNonTag ctl from rfl, handleNonTag_text]
+    split
+    · rcases produceText_desc hcl ks (hk.dom hcl).1 inpS ⟨pc, raw, some (.text tt)⟩ tt with hp | ⟨_, _, _, h2, _⟩
+      · exact Or.inl hp
+      · exact Or.inr h2
+    · exact Or.inr rfl
+  text := by
+    intro pc a x d tt ks kw hk hloc hd hδ hx
+    rw [show (guardOps ctl).handleNonTag = Disp.handleNonTag ctl from rfl, handleNonTag_text, handleNonTag_text]
+    obtain ⟨hj, hk⟩ := hk
+    rw [if_neg (by omega)] at hk
+    cases hft : ks.flags.text with
+    | false =>
+      have h0 := hk.1 hft
+      rw [h0.eq.flags, hft]
+      simp only [Bool.false_eq_true, if_false, ite_self]
+      exact OpRel.ok () (DK_zero.2 ⟨hj, h0⟩)
+    | true =>
+      have ht := hk.2 hft
+      rw [ht.eq.flags, hft]
+      simp only [if_true]
+      have hl : ks.rcs = a + d - δ ∧ ks.textPendingStart = pc + δ + (a + d - δ) ∧ ks.lastTextType = tt ∧
+          ks.textPending = true := hloc hft
+      have hfr : DJ ctl (if a + d < x then ks.produceText ctl inpS ⟨pc + δ, ⟨a + d - δ, x - δ⟩, some (.text tt)⟩ tt
+          else (ks, .ok ())).1 := by
+        split
+        · have := produceNonTag_frame hcl ks inpS ⟨pc + δ, ⟨a + d - δ, x - δ⟩, some (.text tt)⟩
+          unfold Disp.produceNonTag at this
+          simp only [hft, if_true] at this
+          exact this.dj hj
+        · exact hj
+      have := OpRel.and_left (P := DJ ctl) (textRepay_sim F hcl pc a x d tt ht hl hd hδ hx (some (.text tt)) (some (.text tt))) hfr
+      exact this.mono (fun _ _ h => DK_zero.2 ⟨h.2, h.1⟩)
+
+
 end
 
 end LolHtml.Model.Chunk.R
